@@ -190,4 +190,15 @@ PLAN = {
         quick=[dict(test="TestC18", cases=1600, shards=16, timeout=900)],
         thorough=[dict(test="TestC18", cases=48000, shards=16, timeout=3400, shrink=120)],
     ),
+    "C19": dict(
+        level="exploration",
+        rule=("histories (<= 25 ops quick / 70 thorough) on two open transfer channels written into the real IBC stores (client, connection, channel, capability; sends go through the real channel keeper, each sent packet is rebuilt and matched against the stored commitment) with ibc-go v8.5.1's delivery rules emulated (receipt / commitment based no-op on replay; receive callback in a cache context written only for a successful acknowledgement; an error from the acknowledgement / timeout callback fails the message): "
+              "inbound packets with denomination in {voucher registered as a pair by its ibc denomination, voucher registered as an alias of a base coin, the same base denomination over the other channel, unregistered, returning FX up to what earlier acknowledged transfers of the history delivered, returning FX beyond the escrow, FX claiming another channel}, receiver in {hex user, bech32 user, contract, garbage}, amount in {1..100000, 0, 2^256, text}, memo in {none, EVM call to a caller-recording contract, EVM call to a reverting contract, truncated json, other json}, three foreign senders (one equal to a local account's bech32 string); "
+              "outbound MsgTransfer of FX / voucher coins and crossChain precompile calls with an IBC target (native value, wrapped FX, voucher ERC-20) by three users; success / error acknowledgements and timeouts of any in-flight packet in any order; replays of inbound packets and of resolved deliveries. "
+              "Oracle: success acknowledgement => exactly the amount to the receiver (ERC-20 for vouchers, coin for FX), every other tracked holding (users, contracts, all derived memo senders; coin and ERC-20 form separately) unchanged, supply of the token's denominations + amount (unchanged for returning FX); error acknowledgement => no store outside the IBC core's changes; memo call runs as hash(source port/channel, sender), never as a local account; "
+              "a send debits exactly the amount in the form sent, a refused send changes nothing and leaves no tracking record; error acknowledgement / timeout refunds exactly the amount in the form sent, once (replays change nothing), a success acknowledgement refunds nothing; no tracking record remains after any resolution; each channel's escrow holds exactly sends - refunds - returns. non-trivial = transfers resolved out of sending order, or an inbound packet with a memo call"),
+        assumptions=["light-client proofs are not exercised: delivery follows ibc-go v8.5.1's message server rules as emulated in harness/sim/ibc.go", "on this snapshot every ERC-20-started IBC transfer is refused by the precompile (counted in the evidence labels), so refunds in ERC-20 form are reachable only if that changes"],
+        quick=[dict(test="TestC19", cases=1600, shards=16, timeout=900)],
+        thorough=[dict(test="TestC19", cases=48000, shards=16, timeout=3400, shrink=120)],
+    ),
 }
